@@ -122,6 +122,9 @@ static Case decode(tape_t const& tape)
 }
 
 static std::string threads_value(int v) { return std::to_string(v + 1); }                       // 1..8
+// the symbolic thread counts (this machine: 16 cores with one PU each, so both mean "every PU of the effective mask"); used for the
+// sources that accept them (environment, PIKA_COMMANDLINE_OPTIONS, dedicated option) when the generated value is 7 or 8 and the
+// spare draw `hex` is set (derived: older replay tapes keep their meaning for numeric values)
 static std::string mask_value(int v) { static char const* const m[] = {"0x3", "0xf", "0xff", "0xf0", "0x5555", "0xffff"}; return m[v]; }
 static int mask_pus(int v) { static int const n[] = {2, 4, 8, 4, 8, 16}; return n[v]; }
 static std::string stack_value(int v, bool hex)
@@ -130,11 +133,12 @@ static std::string stack_value(int v, bool hex)
     if (hex) std::snprintf(b, sizeof b, "0x%lx", stack_vals[v]); else std::snprintf(b, sizeof b, "%ld", stack_vals[v]);
     return b;
 }
+static bool is_keyword_threads(Given const& g) { return g.setting == S_THREADS && g.hex && g.value >= 6 && g.source != SRC_INI; }
 static std::string value_text(Given const& g)
 {
     switch (g.setting)
     {
-    case S_THREADS: return threads_value(g.value);
+    case S_THREADS: return is_keyword_threads(g) ? (g.value == 6 ? "cores" : "all") : threads_value(g.value);
     case S_SCHEDULER: return sched_vals[g.value];
     case S_SMALL_STACK: return stack_value(g.value, g.hex);
     case S_BIND: return bind_vals[g.value];
@@ -303,7 +307,7 @@ static Outcome run(tape_t const& tape)
         if (entry_ran) fail("invalid_input_ignored", "invalid input (" + cmdline + "| " + envs + ") but the entry function ran as if nothing was wrong");
         else if (!error_signalled) fail("invalid_input_no_error", "invalid input: entry function did not run but no error was reported (exit 0)");
     }
-    else if (win_src[S_THREADS] >= 0 && win_src[S_PROCESS_MASK] >= 0 && win[S_THREADS].value + 1 > mask_pus(win[S_PROCESS_MASK].value))
+    else if (win_src[S_THREADS] >= 0 && !is_keyword_threads(win[S_THREADS]) && win_src[S_PROCESS_MASK] >= 0 && win[S_THREADS].value + 1 > mask_pus(win[S_PROCESS_MASK].value))
     {
         // more threads than PUs in the resolved mask: start-up is expected to refuse (C15's clause), nothing to compare here
         out.tags.push_back("class:threads_exceed_mask");
@@ -327,6 +331,7 @@ static Outcome run(tape_t const& tape)
             if (win_src[S_THREADS] >= 0)
             {
                 int want = win[S_THREADS].value + 1;
+                if (is_keyword_threads(win[S_THREADS])) want = win_src[S_PROCESS_MASK] >= 0 ? mask_pus(win[S_PROCESS_MASK].value) : 16;
                 bool fits = win_src[S_PROCESS_MASK] < 0 || want <= mask_pus(win[S_PROCESS_MASK].value);
                 if (fits && r.num("workers") != want)
                     fail("threads_precedence", "threads resolved to " + std::to_string(want) + " (" + source_names[win_src[S_THREADS]] + " wins) but the runtime uses " + r.get("workers") + " workers (" + cmdline + "| " + envs + ")");
